@@ -96,8 +96,9 @@ template<class K> struct SegCase {
 
 template<class K> static I toI(K v) { return I(v); }
 
-template<class K, bool Chunked>
+template<class K, int Mode> // 0: small inputs, 1: chunked builder, 2: one segment spanning more than 2^24 ranks
 void seg_case(Ctx &c) {
+    constexpr bool Chunked = Mode == 1;
     using Model = pgm::internal::OptimalPiecewiseLinearModel<K, size_t>;
     using Seg = typename Model::CanonicalSegment;
     constexpr bool is_int = std::is_integral_v<K>;
@@ -110,7 +111,24 @@ void seg_case(Ctx &c) {
         sc.family = c.given->one_str("family", "spec");
     } else {
         sc.eps = c.rng.pick<size_t>({0, 0, 1, 1, 2, 3, 4, 8, 16, 64, 128, 1024});
-        if (Chunked) {
+        if constexpr (Mode == 2) {
+            // near-collinear keys, more than 2^24 of them, built sequentially: the optimum is ONE segment whose ranks span
+            // more than a float mantissa (any cap, counter width or "safety" split keyed to that span shows as a segment that
+            // is not maximal); in half of the cases the slope changes just after rank 2^24, so that a second, short segment follows
+            using D = UDom<K>;
+            sc.eps = c.rng.pick<size_t>({1, 4, 64, 1024});
+            size_t n = (size_t(1) << 24) + 1000 + c.rng.below(c.thorough() ? (size_t(1) << 21) : (size_t(1) << 18));
+            uint64_t g = 2 + c.rng.below(sizeof(K) >= 8 ? 1000 : 60);
+            bool two = c.rng.chance(1, 2);
+            size_t knee = two ? (size_t(1) << 24) + 100 + c.rng.below(800) : n; // the first line alone spans more than 2^24 ranks
+            sc.keys.resize(n);
+            uint64_t cur = c.rng.below(1000);
+            for (size_t i = 0; i < n; ++i) {
+                sc.keys[i] = D::to_key(std::min(cur + (i % 5 == 0 ? 1 : 0), D::R));
+                cur += i < knee ? g : 3 * g;
+            }
+            sc.family = two ? "huge_two_lines" : "huge_one_line";
+        } else if (Chunked) {
             sc.threads = 1 + int(c.rng.below(20));
             if (c.rng.chance(1, 3)) sc.procs = 1 + int(c.rng.below(24)); // fewer processors than threads: procs bounds the chunks
             size_t maxn = c.thorough() ? (c.case_idx % 8 == 7 ? (size_t(1) << 20) : (size_t(1) << 18)) : (size_t(1) << 16);
@@ -240,6 +258,7 @@ void seg_case(Ctx &c) {
     for (auto &s : scopes) {
         pts.insert(pts.end(), s.points.begin(), s.points.end());
         scope_end.push_back(pts.size());
+        decltype(s.points)().swap(s.points); // the concatenation is the only copy kept (the #huge cases hold 2^24 points)
     }
     for (size_t i = 1; i < pts.size(); ++i)
         if (!(pts[i - 1].first < pts[i].first)) {
@@ -407,18 +426,21 @@ void seg_case(Ctx &c) {
 }
 
 #define VF_SEG(K)                                                                                                      \
-    VF_REGISTER(std::string("seg/") + ::vf::KT<K>::name() + "#small", (&::vf::seg_case<K, false>), 1.0);               \
-    VF_REGISTER(std::string("seg/") + ::vf::KT<K>::name() + "#chunk", (&::vf::seg_case<K, true>), 0.03)
+    VF_REGISTER(std::string("seg/") + ::vf::KT<K>::name() + "#small", (&::vf::seg_case<K, 0>), 1.0);                   \
+    VF_REGISTER(std::string("seg/") + ::vf::KT<K>::name() + "#chunk", (&::vf::seg_case<K, 1>), 0.03)
+#define VF_SEG_HUGE(K) VF_REGISTER(std::string("seg/") + ::vf::KT<K>::name() + "#huge", (&::vf::seg_case<K, 2>), 0.0004)
 
 #if VF_GROUP == 0
 VF_SEG(uint8_t);
 VF_SEG(uint64_t);
+VF_SEG_HUGE(uint64_t);
 #elif VF_GROUP == 1
 VF_SEG(uint16_t);
 VF_SEG(int64_t);
 #elif VF_GROUP == 2
 VF_SEG(int16_t);
 VF_SEG(uint32_t);
+VF_SEG_HUGE(uint32_t);
 #elif VF_GROUP == 3
 VF_SEG(int32_t);
 VF_SEG(float);
